@@ -224,6 +224,12 @@ impl<'de, 'a> DeserializeSeed<'de> for IdentSeed<'a> {
 impl<'de, 'a> DeserializeSeed<'de> for Capture<'a> {
 	type Value = Val;
 	fn deserialize<D: Deserializer<'de>>(self, d: D) -> Result<Val, D::Error> {
+		// what the format says of itself to the caller's types (std's IpAddr, uuid, chrono ... choose their
+		// representation by it): recorded, and compared with what the serializer says
+		HUMAN_READABLE.with(|h| {
+			let (ser, _) = h.get();
+			h.set((ser, Some(d.is_human_readable())));
+		});
 		let ctx = self.ctx;
 		let ty = ctx.env.resolve(self.ty);
 		let sv = ScalarV(ctx);
@@ -438,6 +444,7 @@ impl<'de, 'a> Visitor<'de> for SeqV<'a> {
 	fn visit_seq<A: SeqAccess<'de>>(self, mut seq: A) -> Result<Val, A::Error> {
 		self.ctx.tick();
 		self.ctx.enter();
+		watch_size_hint(seq.size_hint(), crate::container::min_width(self.ctx.env, self.elem, 0));
 		let mut out = Vec::new();
 		let r = loop {
 			if out.len() > CAPTURE_ELEM_CAP {
@@ -454,6 +461,17 @@ impl<'de, 'a> Visitor<'de> for SeqV<'a> {
 	}
 }
 
+fn watch_size_hint(hint: Option<usize>, elem_min_width: usize) {
+	if let (Some(h), true) = (hint, elem_min_width >= 1) {
+		SIZE_HINT_WATCH.with(|w| {
+			let (len, worst) = w.get();
+			if h > len && worst.map_or(true, |x| h > x) {
+				w.set((len, Some(h)));
+			}
+		});
+	}
+}
+
 struct MapV<'a> {
 	val: &'a Ty,
 	ctx: &'a CapCtx<'a>,
@@ -466,6 +484,8 @@ impl<'de, 'a> Visitor<'de> for MapV<'a> {
 	fn visit_map<A: MapAccess<'de>>(self, mut map: A) -> Result<Val, A::Error> {
 		self.ctx.tick();
 		self.ctx.enter();
+		// (a map entry is at least its key's length prefix: one byte)
+		watch_size_hint(map.size_hint(), 1);
 		let mut out = Vec::new();
 		let r = loop {
 			if out.len() > CAPTURE_ELEM_CAP {
@@ -613,6 +633,12 @@ pub struct Blind<'a> {
 	pub callbacks: &'a Cell<u64>,
 }
 thread_local! {
+	/// the largest `size_hint()` a sequence / map accessor gave in excess of what the input could possibly hold
+	/// (elements at least one byte wide: a hint above the input's length is a number written in the input, handed to
+	/// the caller's `Vec::with_capacity`): (input length set by the check, worst hint seen)
+	pub static SIZE_HINT_WATCH: Cell<(usize, Option<usize>)> = const { Cell::new((usize::MAX, None)) };
+	/// (what the serializer last said of is_human_readable(), what the deserializer last said)
+	pub static HUMAN_READABLE: Cell<(Option<bool>, Option<bool>)> = const { Cell::new((None, None)) };
 	/// while set, the blind target REFUSES every string / bytes leaf with serde's stock `invalid_type` error, which
 	/// quotes the value it was given (what a caller's type does when it wanted a number, an enum variant, a known
 	/// field name): the decoder must turn that into `Err`, whatever the content quoted
